@@ -137,6 +137,8 @@ func publishedChains(kind string) []ruleCase {
 		add(chain("version_compare numbers", "1.0", "1.0.1", "1.1", "1.9", "1.10", "2.0"))
 		add(class("composer: spellings", "1.0-RC1", "1.0RC1", "1.0-rc1", "v1.0-RC1", "1.0.rc.1"))
 		add(class("composer: alpha/beta shorthands", "1.0-alpha1", "1.0-a1", "1.0a1"))
+		add(class("version_compare: '-', '_' and '+' are all separators", "1.0-RC1", "1.0_RC1", "1.0+RC1", "1.0.RC.1"))
+		add(class("version_compare: separators between numbers", "1.0.1", "1.0-1", "1.0_1", "1.0+1"))
 	case "cran":
 		add(chain("R package_version", "0.9", "0.10", "1.0", "1.0.0", "1.0.1", "1.1", "1.10"))
 		add(class("R package_version: '-' and '.' are the same separator", "1.0-1", "1.0.1", "1-0-1"))
@@ -329,4 +331,274 @@ var markers = map[string][]string{
 	"alpine":    {"1.2", "1.2_cvs", "1.2_rc1", "1.2_p1", "1.2-r0", "1.2-r1", "1.2a", "1.2_cvs1", "1.2_alpha", "1.2.0", "1.02", "1.10", "1.2_rc1-r1"},
 	"packagist": {"1", "1.5", "1.99999999999999999999", "1.0", "1.0-dev", "1.0-RC1", "1.0rc1", "1.0-p1", "1.0-beta2", "1.0.0", "1.0.1", "v1.0", "1.10", "1.9"},
 	"cran":      {"", "1.a", "1.0", "1.0-1", "1.0.1", "1-0-1", "1.01", "1.1", "1.10", "1.9", "1.0.0", "0.99999999999999999999", "0.100000000000000000000"},
+}
+
+
+// ---------------------------------------------------------------- systematic rule classes
+// Derived from the PUBLISHED tables and grammars (hard-coded here from the documentation, never from the code or
+// from Generated_Tables.v): every table entry x {directly followed by a digit, followed by each separator, at the
+// end, upper / lower case} and the boundary characters of every character class, so that a change to a single table
+// entry or class boundary shows up as a rule-level failure.
+
+func cmpSign(a, b int) string {
+	switch {
+	case a < b:
+		return "Lt"
+	case a > b:
+		return "Gt"
+	}
+	return "Eq"
+}
+
+func withSign(a, b, sign, rule string) ruleCase { return ruleCase{a, b, sign, rule} }
+
+func upperFirst(s string) string { return strings.ToUpper(s[:1]) + s[1:] }
+
+func systematicRules(kind string) []ruleCase {
+	var out []ruleCase
+	add := func(rc ...ruleCase) { out = append(out, rc...) }
+	switch kind {
+	case "debian":
+		// deb-version(7) / dpkg order(): '~' before everything even the end; then the end; then letters (ASCII order);
+		// then every other character (ASCII order)
+		order := func(c string) int {
+			switch {
+			case c == "~":
+				return -1
+			case c == "":
+				return 0
+			case (c[0] >= 'A' && c[0] <= 'Z') || (c[0] >= 'a' && c[0] <= 'z'):
+				return int(c[0])
+			}
+			return int(c[0]) + 256
+		}
+		chars := []string{"~", "", "A", "B", "Y", "Z", "a", "b", "y", "z", "+", "-", ".", ":"}
+		for _, prefix := range []string{"1.0", "2.4x", "3.1Z", "0.9a"} {
+			for i, c1 := range chars {
+				for _, c2 := range chars[i+1:] {
+					if order(c1) == order(c2) {
+						continue
+					}
+					if (c1 == "" || c2 == "") && prefix[len(prefix)-1] >= '0' && prefix[len(prefix)-1] <= '9' {
+						continue // "end of the non-digit run" needs a run: only after a letter prefix
+					}
+					// epoch present so that ':' is legal upstream, revision present so that '-' is legal upstream
+					a, b := "1:"+prefix+c1+"1-1", "1:"+prefix+c2+"1-1"
+					add(withSign(a, b, cmpSign(order(c1), order(c2)), "deb-version: '~' < end < letters < non-letters, every class boundary ("+c1+" vs "+c2+")"))
+				}
+			}
+		}
+		for _, c := range []string{"a", "z", "A", "Z", "m"} { // a letter run that continues vs a non-letter: letter first
+			for _, n := range []string{"+", ".", "-", ":"} {
+				add(lt("1:1.0"+c+"-1", "1:1.0"+n+"b1-1", "deb-version: letters sort before non-letters"))
+				add(lt("1:2.4x"+c+"1-1", "1:2.4x"+n+"dfsg1-1", "deb-version: letters sort before non-letters (inside a run)"))
+			}
+		}
+	case "alpine":
+		pre := []string{"alpha", "beta", "pre", "rc"}
+		post := []string{"cvs", "svn", "git", "hg", "p"}
+		all := append(append([]string{}, pre...), post...)
+		rank := map[string]int{}
+		for i, s := range pre {
+			rank[s] = i - len(pre) // negative: below "no suffix" (0)
+		}
+		for i, s := range post {
+			rank[s] = i + 1
+		}
+		bases := []string{"1.0", "2.3.4"}
+		nums := []string{"", "1", "9"}
+		for i, s1 := range all {
+			for _, n1 := range nums {
+				base := bases[(i+len(n1))%2]
+				x := base + "_" + s1 + n1
+				// one suffix against none, every table entry, with and without number, with a revision
+				add(withSign(x, base, cmpSign(rank[s1], 0), "apk: suffix "+s1+" against no suffix"))
+				add(withSign(x+"-r3", base+"-r3", cmpSign(rank[s1], 0), "apk: suffix "+s1+" against no suffix (with -r)"))
+			}
+			for j, s2 := range all {
+				base := bases[(i+j)%2]
+				x := base + "_" + s1 + nums[(i+j)%3]
+				// a second suffix: compared after the first; pre-release class below "nothing", post-release above
+				add(withSign(x+"_"+s2+"1", x, cmpSign(rank[s2], 0), "apk: second suffix "+s2+" against none"))
+				add(lt(x+"_"+s2+"9", x+"_"+s2+"10", "apk: number of the second suffix compares numerically"))
+				add(eq(x+"_"+s2+"2", x+"_"+s2+"02", "apk: suffix numbers are numbers (leading zeros)"))
+				add(lt(x+"_"+s2+"1-r9", x+"_"+s2+"1-r10", "apk: -r after several suffixes compares numerically"))
+			}
+		}
+		for i, s1 := range all { // table order, pairwise, in first, second and third position
+			for j, s2 := range all[i+1:] {
+				base := bases[(i+j)%2]
+				add(lt(base+"_"+s1, base+"_"+s2, "apk suffix order: "+s1+" < "+s2))
+				add(lt(base+"_"+s1+"7", base+"_"+s2+"1", "apk suffix order decides before the number: "+s1+" < "+s2))
+				add(lt(base+"_rc1_"+s1, base+"_rc1_"+s2, "apk suffix order in second position: "+s1+" < "+s2))
+				add(lt(base+"_alpha_p1_"+s1+"2", base+"_alpha_p1_"+s2+"1", "apk suffix order in third position: "+s1+" < "+s2))
+			}
+		}
+	case "maven":
+		// Maven version order specification: alpha < beta < milestone < rc = cr < snapshot < "" = ga = final = release < sp
+		// < any other qualifier (lexical) < numbers; a / b / m are alpha / beta / milestone ONLY when directly followed by a digit
+		ladder := [][]string{{"alpha"}, {"beta"}, {"milestone"}, {"rc", "cr"}, {"snapshot"}, {"", "ga", "final", "release"}, {"sp"}}
+		rel := func(q string) string {
+			if q == "" {
+				return "1"
+			}
+			return "1-" + q
+		}
+		for i, ci := range ladder {
+			for _, q := range ci {
+				for _, q2 := range ci {
+					add(eq(rel(q), rel(q2), "Maven: equivalent qualifiers "+q+" = "+q2))
+				}
+				if q != "" {
+					add(eq(rel(q), rel(strings.ToUpper(q)), "Maven: qualifiers are case-insensitive ("+q+")"))
+					add(eq(rel(q), rel(upperFirst(q)), "Maven: qualifiers are case-insensitive ("+q+")"))
+					add(lt(rel(q), "1-zzz", "Maven: known qualifiers are below unknown ones ("+q+")"))
+					add(lt(rel(q), "1-1", "Maven: qualifiers are below numbers ("+q+")"))
+					add(lt(rel(q)+"-1", rel(q)+"-2", "Maven: number after the qualifier "+q))
+					add(lt(rel(q)+"-9", rel(q)+"-10", "Maven: number after the qualifier "+q+" compares numerically"))
+				}
+				for _, cj := range ladder[i+1:] {
+					for _, r := range cj {
+						add(lt(rel(q), rel(r), "Maven qualifier ladder: "+q+" < "+r))
+						if i != 5 && q != "" && r != "" { // (ga / final / release are null values: trimmed before a hyphen)
+							add(lt("2.1-"+q+"-5", "2.1-"+r+"-1", "Maven qualifier ladder decides before the number: "+q+" < "+r))
+						}
+					}
+				}
+			}
+		}
+		for _, sl := range [][2]string{{"a", "alpha"}, {"b", "beta"}, {"m", "milestone"}} {
+			short, long := sl[0], sl[1]
+			for _, v := range []string{"1", "1.0", "2.0"} {
+				for _, s := range []string{short, strings.ToUpper(short)} {
+					// directly followed by a digit: the shorthand
+					add(eq(v+"-"+s+"1", v+"-"+long+"-1", "Maven: '"+short+"' directly followed by a digit is "+long))
+					add(eq(v+s+"1", v+"-"+long+"-1", "Maven: '"+short+"' directly followed by a digit is "+long+" (no separator before)"))
+					add(lt(v+"-"+s+"1", v, "Maven: "+long+" shorthand is a pre-release"))
+					// followed by a separator, or at the end: an ordinary unknown qualifier, above the release and above sp
+					for _, sep := range []string{"-", "."} {
+						add(lt(v, v+"-"+s+sep+"1", "Maven: a lone '"+short+"' token followed by a separator is NOT "+long+" (unknown qualifier, above the release)"))
+						add(lt(v+"-"+long+"-1", v+"-"+s+sep+"1", "Maven: a lone '"+short+"' token followed by a separator is NOT "+long))
+						add(lt(v+"-"+s+"1", v+"-"+s+sep+"1", "Maven: '"+short+"1' (shorthand) is below '"+short+sep+"1' (unknown qualifier)"))
+						add(lt(v+"-rc-1", v+"-"+s+sep+"2", "Maven: a lone '"+short+"' token is above rc"))
+						add(lt(v+"-sp-1", v+"-"+s+sep+"2", "Maven: a lone '"+short+"' token is above sp"))
+					}
+					add(lt(v, v+"-"+s, "Maven: a lone '"+short+"' at the end is an unknown qualifier, above the release"))
+					add(lt(v+"-"+long, v+"-"+s, "Maven: a lone '"+short+"' at the end is NOT "+long))
+				}
+			}
+		}
+	case "pypi":
+		// PEP 440 normalisation: every spelling x every separator position x case, with and without number
+		type sp struct{ spelled, canon string }
+		pres := []sp{{"a", "a"}, {"alpha", "a"}, {"b", "b"}, {"beta", "b"}, {"c", "rc"}, {"rc", "rc"}, {"pre", "rc"}, {"preview", "rc"}}
+		posts := []sp{{"post", "post"}, {"rev", "post"}, {"r", "post"}}
+		seps := []string{"", ".", "-", "_"}
+		for _, grp := range []struct {
+			name string
+			xs   []sp
+			dot  string
+		}{{"pre-release", pres, ""}, {"post-release", posts, "."}, {"dev-release", []sp{{"dev", "dev"}}, "."}} {
+			for _, x := range grp.xs {
+				for _, s1 := range seps {
+					for _, s2 := range seps {
+						ws := []string{x.spelled}
+						if s1 == s2 {
+							ws = append(ws, strings.ToUpper(x.spelled))
+						}
+						for _, w := range ws {
+							add(eq("1.0"+s1+w+s2+"2", "1.0"+grp.dot+x.canon+"2", "PEP 440 "+grp.name+" spelling '"+x.spelled+"' with separators normalises to "+x.canon))
+							add(eq("1.0"+s1+w, "1.0"+grp.dot+x.canon+"0", "PEP 440 "+grp.name+" '"+x.spelled+"' without a number means 0"))
+						}
+					}
+				}
+				add(lt("1.0"+x.spelled+"9", "1.0"+x.spelled+"10", "PEP 440 "+grp.name+" numbers compare numerically ("+x.spelled+")"))
+			}
+		}
+		add(chain("PEP 440 pre-release phases", "1.0a5", "1.0b1", "1.0rc1", "1.0")...)
+		add(chain("PEP 440 pre-release phases (long spellings)", "1.0alpha5", "1.0beta1", "1.0preview1", "1.0")...)
+		for _, a := range []string{"-", "_", "."} { // local labels: every separator pair, numeric segments of different digit counts
+			for _, b := range []string{"-", "_", "."} {
+				add(eq("1.0+x"+a+"1", "1.0+x"+b+"1", "PEP 440 local separators are equivalent"))
+				add(lt("1.0+x"+a+"9", "1.0+x"+b+"10", "PEP 440 numeric local segments compare numerically"))
+				add(lt("1.0+x"+a+"9", "1.0+x"+b+"9"+a+"0", "PEP 440 more local segments is greater"))
+			}
+		}
+		for _, c := range []string{"a", "z", "0a", "a0"} {
+			add(lt("1.0+"+c, "1.0+0", "PEP 440 numeric local segment above alphanumeric ("+c+")"))
+			add(eq("1.0+"+c, "1.0+"+strings.ToUpper(c), "PEP 440 local labels are case-insensitive"))
+		}
+	case "packagist":
+		// PHP version_compare: any other string < dev < alpha = a < beta = b < RC = rc < # (number) < pl = p
+		ladder := [][]string{{"dev"}, {"alpha", "a"}, {"beta", "b"}, {"RC", "rc"}, {""}, {"pl", "p", "patch"}}
+		form := func(q, sep, n string) string {
+			if q == "" {
+				return "1.0"
+			}
+			return "1.0" + sep + q + n
+		}
+		for i, ci := range ladder {
+			for _, q := range ci {
+				for _, sep := range []string{"", "-", ".", "_", "+"} {
+					for _, q2 := range ci {
+						add(eq(form(q, sep, "1"), form(q2, "-", "1"), "version_compare: "+q+" = "+q2+" with every separator"))
+					}
+					if q != "" {
+						add(lt(form(q, sep, "9"), form(q, sep, "10"), "version_compare: number after "+q+" compares numerically"))
+					}
+					for _, cj := range ladder[i+1:] {
+						for _, r := range cj {
+							add(lt(form(q, sep, "5"), form(r, sep, "1"), "version_compare special forms: "+q+" < "+r))
+						}
+					}
+				}
+			}
+		}
+	case "redhat":
+		// rpmvercmp character classes: separators (anything but alnum ~ ^) are equivalent and ignored; letters < digits
+		for _, s1 := range []string{".", "_", "+", ",", "#"} {
+			for _, s2 := range []string{".", "_", "+"} {
+				add(eq("1"+s1+"2"+s1+"a", "1"+s2+"2"+s2+"a", "rpmvercmp: all separators are equivalent"))
+			}
+		}
+		for _, l := range []string{"a", "z", "A", "Z"} {
+			for _, d := range []string{"0", "9", "10"} {
+				add(lt("1."+l, "1."+d, "rpmvercmp: a letter segment is older than a digit segment ("+l+" vs "+d+")"))
+				add(lt("1."+l+"~", "1."+l, "rpmvercmp: tilde after "+l))
+				add(lt("1."+l, "1."+l+"^", "rpmvercmp: caret after "+l))
+				add(lt("1."+d+"~x", "1."+d+"^x", "rpmvercmp: tilde below caret after "+d))
+			}
+		}
+		add(chain("rpmvercmp: letters compare by strcmp", "1.A", "1.Z", "1.a", "1.ab", "1.b", "1.z")...)
+	case "semver", "nuget":
+		// identifiers: [0-9A-Za-z-]; all-digit identifiers are numeric and lower than the others, which compare in ASCII order
+		ids := []string{"-", "0a", "9z", "A", "Z", "a", "z", "z-"}
+		if kind == "nuget" { // NuGet compares labels case-insensitively: only lower-case representatives are ordered
+			ids = []string{"-", "0a", "9z", "a", "z", "z-"}
+		}
+		for i, a := range ids {
+			for _, b := range ids[i+1:] {
+				add(lt("1.0.0-x."+a, "1.0.0-x."+b, "semver 11.4.2: alphanumeric identifiers compare in ASCII order ("+a+" < "+b+")"))
+			}
+			for _, n := range []string{"0", "9", "10", "99999999999999999999"} {
+				add(lt("1.0.0-x."+n, "1.0.0-x."+a, "semver 11.4.3: numeric identifier "+n+" below alphanumeric "+a))
+			}
+		}
+	case "rubygems":
+		for _, l := range []string{"a", "z", "A", "Z", "pre", "rc"} {
+			add(eq("1.0"+l+"1", "1.0."+l+".1", "Gem::Version: a letter/digit boundary is a segment boundary ("+l+")"))
+			add(lt("1.0."+l, "1.0", "Gem::Version: letter segment "+l+" makes a prerelease"))
+			add(lt("1.0."+l+"9", "1.0."+l+"10", "Gem::Version: numbers after "+l+" compare as integers"))
+			add(lt("1.0."+l, "1.0."+l+".1", "Gem::Version: longer prerelease"))
+		}
+		add(chain("Gem::Version: letter segments compare as strings", "1.0.A", "1.0.Z", "1.0.a", "1.0.b", "1.0.z")...)
+	case "cran":
+		for _, s1 := range []string{".", "-"} {
+			for _, s2 := range []string{".", "-"} {
+				add(eq("1"+s1+"2"+s2+"3", "1.2.3", "package_version: separators '.' and '-' are the same"))
+				add(lt("1"+s1+"9"+s2+"0", "1"+s2+"10"+s1+"0", "package_version: numeric components"))
+			}
+		}
+	}
+	return out
 }
